@@ -49,6 +49,23 @@ def make_df(n_ind=12, n_feat=3, seed=0, missing=0.0, visits=(3, 6), joint=False,
                 row[f"Y{f}"] = v
             rows.append(row)
     df = pd.DataFrame(rows)
+    return ensure_events(df) if joint else df
+
+
+def ensure_events(df):
+    """A joint cohort must hold at least one observed and one censored event (the joint reader refuses it otherwise — a documented
+    requirement, not a property failure): when the draw (or a sub-cohort) lacks one of the two, the indicator of the first
+    (resp. last) individual is set accordingly.  Deterministic; a single-individual cohort is returned unchanged."""
+    if "EVENT_BOOL" not in df.columns:
+        return df
+    ids = list(dict.fromkeys(df["ID"]))
+    if len(ids) < 2:
+        return df
+    df = df.copy()
+    if not (df["EVENT_BOOL"] == 1).any():
+        df.loc[df["ID"] == ids[0], "EVENT_BOOL"] = 1
+    if not (df["EVENT_BOOL"] == 0).any():
+        df.loc[df["ID"] == ids[-1], "EVENT_BOOL"] = 0
     return df
 
 
